@@ -7,6 +7,7 @@ KINDS = ["KTop", "KFunc", "KLam", "KLoopInFunc"]
 
 
 allow_import = [False]
+import_heavy = [False]      # profile: imports (half of them of modules whose body raises / does not compile) are three times as frequent
 
 
 def gen_items(rng, n, depth, budget, allow_raise=True):
@@ -19,7 +20,11 @@ def gen_items(rng, n, depth, budget, allow_raise=True):
         if r < 0.34 and depth < 5:
             items.append(["ctx", rng.randrange(n), rng.random() < 0.35, gen_items(rng, n, depth + 1, budget, allow_raise)])
         elif r < 0.42 and depth < 5:
-            items.append(["exec", rng.randrange(n), gen_items(rng, n, depth + 1, budget, allow_raise)])
+            if rng.random() < 0.4:
+                # the real sandbox API: tracer.exec / tracer.eval of instrumented code (a context that copies the tracer's current state + a top-level site)
+                items.append(["rsite", rng.randrange(n), rng.choice(["exec", "eval"])])
+            else:
+                items.append(["exec", rng.randrange(n), gen_items(rng, n, depth + 1, budget, allow_raise)])
         elif r < 0.45 and depth < 5 and allow_raise:
             # a context whose enter hook raises (not entered at all) / whose exit hook raises (after the body): in the model these are
             # `with ctx: raise` and `with ctx: body` followed by a raise - the state afterwards must be the same
@@ -27,10 +32,11 @@ def gen_items(rng, n, depth, budget, allow_raise=True):
                 items.append(["ctxfail", rng.randrange(n), rng.random() < 0.35])
             else:
                 items.append(["ctxexitfail", rng.randrange(n), rng.random() < 0.35, gen_items(rng, n, depth + 1, budget, False)])
-        elif r < 0.80:
+        elif r < (0.80 if not import_heavy[0] else 0.68):
             items.append(["site", rng.choice(KINDS)])
         elif r < 0.86 and allow_import[0]:
-            items.append(["import", rng.choice(["blocked", "missing", "stdlib", "broken", "raising", "good"])])
+            items.append(["import", rng.choice(["blocked", "missing", "stdlib", "broken", "raising", "good"] if not import_heavy[0]
+                                               else ["raising", "raising", "broken", "good", "good", "stdlib"])])
         elif r < 0.93 and allow_raise:
             items.append(["raise"])
         elif depth < 5:
@@ -43,10 +49,15 @@ def gen_items(rng, n, depth, budget, allow_raise=True):
 def gen_case(rng, sys_level=True, imports=False):
     allow_import[0] = imports
     n = rng.choice([1, 2, 2, 3, 3])
-    cfg = [{"has_sys": sys_level and rng.random() < 0.3, "patch_meta": rng.random() < 0.7} for _ in range(n)]
+    # a quarter of the histories with imports: mostly sys-level tracers over a pre-existing trace function, imports three times as frequent
+    # (exec_module switches tracers off and on around a foreign module: the system trace functions must come back in the same order)
+    import_heavy[0] = imports and sys_level and rng.random() < 0.25
+    p_sys, p_pre = (0.8, 0.7) if import_heavy[0] else (0.3, 0.3)
+    cfg = [{"has_sys": sys_level and rng.random() < p_sys, "patch_meta": rng.random() < 0.7} for _ in range(n)]
     budget = [rng.choice([5, 9, 14, 20])]
     items = gen_items(rng, n, 0, budget)
-    return {"n": n, "cfg": cfg, "pre": sys_level and rng.random() < 0.3, "items": items}
+    import_heavy[0] = False
+    return {"n": n, "cfg": cfg, "pre": sys_level and rng.random() < p_pre, "items": items}
 
 
 def enumerated_cases():
@@ -63,10 +74,27 @@ def enumerated_cases():
     return out
 
 
+def enumerated_import_cases():
+    """imports under nested contexts of two sys-level tracers (exec_module switches both off and on again around a module neither instruments):
+    {a trace function installed before, none} x {good module, body raises, does not compile} x three nestings, sites after the import and after every exit"""
+    out = []
+    for pre in (True, False):
+        for kind in ("good", "raising", "broken"):
+            imp = [["import", kind], ["site", "KFunc"]]
+            shapes = [
+                [["ctx", 0, False, [["ctx", 1, False, imp], ["site", "KFunc"]]]],
+                [["ctx", 0, True, [["ctx", 1, False, [["ctx", 0, False, imp], ["site", "KFunc"]]], ["site", "KFunc"]]]],
+                [["ctx", 1, False, [["ctx", 0, False, [["ctx", 1, True, imp], ["site", "KLam"]]], ["site", "KFunc"]]]],
+            ]
+            for items in shapes:
+                out.append({"n": 2, "cfg": [{"has_sys": True, "patch_meta": True}, {"has_sys": True, "patch_meta": True}], "pre": pre, "items": items + [["site", "KFunc"]]})
+    return out
+
+
 def count_sites(items):
     c = 0
     for it in items:
-        if it[0] == "site":
+        if it[0] in ("site", "rsite"):
             c += 1
         elif it[0] == "ctx":
             c += count_sites(it[3])
@@ -84,7 +112,7 @@ def count_ctx(items):
     for it in items:
         if it[0] == "ctx":
             c += 1 + count_ctx(it[3])
-        elif it[0] == "ctxfail":
+        elif it[0] in ("ctxfail", "rsite"):
             c += 1
         elif it[0] == "ctxexitfail":
             c += 1 + count_ctx(it[3])
@@ -113,6 +141,8 @@ def coq_items(items):
             out.append("IExec %d [%s]" % (it[1], coq_items(it[2])))
         elif k == "site":
             out.append("ISite %s" % it[1])
+        elif k == "rsite":
+            out.append("IExec %d [ISite KTop]" % it[1])
         elif k == "raise":
             out.append("IRaise")
         elif k == "try":
@@ -222,7 +252,8 @@ def compare(case, m, im):
     ilog = [e[1] for e in im["log"]]
     if m["log"] != ilog:
         return {"detail": "site log: model %r impl %r" % (m["log"], ilog)}
-    isys = [e[3] for e in im["log"]]
+    # a site run through the real tracer.exec / eval (logged as RTop): the scaffold's frames are hidden from `call` handlers, nothing to compare
+    isys = [ms if e[0] == "RTop" else e[3] for e, ms in zip(im["log"], m["syslog"])] if len(m["syslog"]) == len(im["log"]) else [e[3] for e in im["log"]]
     if m["syslog"] != isys:
         return {"detail": "system-trace 'call' deliveries per site: model %r impl %r" % (m["syslog"], isys)}
     ifind = [e[4] for e in im["log"]]
@@ -270,6 +301,11 @@ def reference_log(case):
                     sp[t].pop()
             elif k == "site":
                 out.append([t for t in range(n) if sp[t] and sp[t][-1]])
+            elif k == "rsite":
+                t0 = it[1]
+                sp[t0].append(sp[t0][-1] if sp[t0] else True)      # the sandbox context copies the tracer's current state
+                out.append([t for t in range(n) if sp[t] and sp[t][-1]])
+                sp[t0].pop()
             elif k == "raise":
                 raise Raised()
             elif k == "try":
